@@ -25,4 +25,20 @@ theorem drive_reachable (P : Prog) (f : Nat) (s : State) (h : Reachable P s) : R
       · exact h
     · exact h
 
+/-- run micro-steps of the listed threads in order (a step that is not enabled is skipped) -/
+def runList (P : Prog) : List Nat → State → State
+  | [], s => s
+  | t :: r, s => match step P s t with
+    | some s' => runList P r s'
+    | none => runList P r s
+
+theorem runList_reachable (P : Prog) (l : List Nat) (s : State) (h : Reachable P s) : Reachable P (runList P l s) := by
+  induction l generalizing s with
+  | nil => exact h
+  | cons t r ih =>
+    simp only [runList]
+    split
+    · rename_i s' hs; exact ih s' (Reachable.step (Label.thr t) h hs)
+    · exact ih s h
+
 end AwsVerif.Threads
